@@ -219,6 +219,13 @@ class DPTDateTime(DPTComplex[KNXDateTime]):
             raise ValueError(f"Minutes out of range 0..59: {value.minutes}")
         if value.seconds is not None and not 0 <= value.seconds <= 59:
             raise ValueError(f"Seconds out of range 0..59: {value.seconds}")
+        # a group is marked invalid as a whole - a part of it would be dropped silently
+        if (value.month is None) != (value.day is None):
+            raise ValueError("Provide both month and day, or neither")
+        if (value.hour is None) != (value.minutes is None) or (
+            value.hour is None
+        ) != (value.seconds is None):
+            raise ValueError("Provide hour, minutes and seconds, or none of them")
         if value.hour == 24 and (value.minutes != 0 or value.seconds != 0):
             raise ValueError(
                 "Invalid time. When hour is 24, minutes and seconds have to be set to zero."
